@@ -26,7 +26,7 @@ ASSUMPTIONS = ['bases are normalised absolute http(s) URIs without fragment (the
 RULE = ('bases: normalised http(s) URIs with/without path, trailing slash, query; references: scheme-qualified, network-path, absolute-path, relative-path over '
 	'{".", "..", "", "g", "a.b", "...", segments with an encoded slash in either letter case next to dots, escapes with hex digits in mixed case}; network-path references also handed to join() as URI object / tuple / keywords with the host in upper case, query-only, fragment-only, empty; non-trivial = result differs from both base and reference text; distinct by result')
 
-BASES = [u'http://a/b/c/d;p?q', u'http://a/b/c/d', u'http://a/b/c/', u'http://a', u'http://a/', u'https://h.example/x', u'http://a/b?x=1', u'https://u:p@h:8443/p/q/r', u'http://a/b/c/d/e/f/']
+BASES = [u'http://[2001:db8::1]/a/b?q', u'http://[v1.fe:DC]:81/x/y', u'http://a/b/c/d;p?q', u'http://a/b/c/d', u'http://a/b/c/', u'http://a', u'http://a/', u'https://h.example/x', u'http://a/b?x=1', u'https://u:p@h:8443/p/q/r', u'http://a/b/c/d/e/f/']
 RSEGS = [u'.', u'..', u'', u'g', u'a.b', u'...', u'h', u'g', u'h', u'x:', u'http:', u'a:b', u'@', u'a@b', u'x%2F..', u'%2F..', u'g%2Fh', u'y%2f..', u'..%2F', u'%2f', u'%cE%bB', u'%c3%Ab', u'%Ce%Bb.x']
 RFC_EXAMPLES = [u'g:h', u'g', u'./g', u'g/', u'/g', u'//g', u'?y', u'g?y', u'#s', u'g#s', u'g?y#s', u';x', u'g;x', u'g;x?y#s', u'', u'.', u'./', u'..', u'../', u'../g', u'../..', u'../../', u'../../g',
 	u'../../../g', u'../../../../g', u'/./g', u'/../g', u'g.', u'.g', u'g..', u'..g', u'./../g', u'./g/.', u'g/./h', u'g/../h', u'g;x=1/./y', u'g;x=1/../y', u'g?y/./x', u'g#s/./x', u'http:g', u'HTTP://X/./y']
@@ -40,7 +40,7 @@ def gen_ref(rng):
 	if kind == 0:
 		return rng.choice([u'http', u'https', u'ftp', u'x']) + u'://' + rng.choice([u'b', u'B.c', u'u@b:81']) + u'/' + segs + q + f
 	if kind == 1:
-		return u'//' + rng.choice([u'b', u'B.c:8080', u'u:p@b']) + rng.choice([u'', u'/' + segs]) + q + f
+		return u'//' + rng.choice([u'b', u'B.c:8080', u'u:p@b', u'[::1]:8080', u'[2001:DB8::A]', u'127.0.0.1']) + rng.choice([u'', u'/' + segs]) + q + f
 	if kind == 2:
 		return u'/' + segs + q + f
 	if kind in (3, 4, 5):
@@ -71,6 +71,10 @@ def model_lines(case):
 
 def impl_join(base, ref):
 	from httoop.uri import URI
+	try:
+		bytes(URI(ref.encode()))      # an application that logs or stores the reference composes it first; that must not change what follows
+	except Exception:
+		pass
 	return URI(base.encode()).join(ref.encode())
 
 
